@@ -1,11 +1,15 @@
 import Litep2pVerif.Common.Parse
 import Litep2pVerif.Model.ReqResp.Ledger
+import Litep2pVerif.Model.ReqResp.Handle
+import Litep2pVerif.Generated.Consts
 /-!
 Line-protocol driver for the request-response model (C13).
 
 The protocol model (`Model/ReqResp/Ledger.lean`) is composed with a deterministic model of what the
 adapter `src/verif/c13.rs` puts around the real protocol: the real `TransportService`
-(primary/secondary connection per peer), the harness-owned connections (alive or dead command
+(primary/secondary connection per peer), the real `TransportManagerHandle::dial` over the scripted
+view of the transport manager (`mgr` ops), the real `RequestResponseHandle` (`Model/ReqResp/Handle.lean`:
+command channel, pending responses, event conversion), the harness-owned connections (alive or dead command
 channel), the pending substream-open commands, the responder ends of the substreams (with the
 `Substream` codec's verdicts: response / eof / read failure / too large), logical-time timers and
 the remote requesters of inbound substreams. This environment is only used here; the theorems
@@ -31,6 +35,7 @@ structure InboundEnd where
   answered : Bool       -- the user used up the response channel
   delivered : Bool      -- RequestReceived was handed to the user
   remoteClosed : Bool := false   -- the remote closed its side (`drop`)
+  fb : Option Nat := none        -- fallback protocol the remote negotiated the substream with
 
 structure State where
   cfg : Bool := false
@@ -45,7 +50,22 @@ structure State where
   nextSid : Nat := 0
   /-- unanswered substream-open commands. -/
   opens : List (Sid × Peer) := []
-  sends : List Rid := []
+  /-- `r<k>` ↦ request id (`none`: the command channel was clogged). -/
+  sends : List (Option Rid) := []
+  /-- the transport manager's view of the peers, as scripted by `mgr <p> <view>`. -/
+  mgr : List (Peer × String) := []
+  /-- the manager does not read its command channel, which is full (`mgr clog`). -/
+  clog : Bool := false
+  /-- the manager's command receiver is gone (`mgr gone`). -/
+  gone : Bool := false
+  /-- `DialPeer` commands sent during the current operation. -/
+  dialCmds : Nat := 0
+  /-- number of entries of the model's call log already turned into harness state. -/
+  absorbed : Nat := 0
+  /-- the user's handle. -/
+  h : Handle := { capacity := Consts.RR_COMMAND_CHANNEL_SIZE }
+  /-- request ↦ fallback protocol its substream was negotiated with. -/
+  negotiated : List (Rid × Nat) := []
   inbounds : List (Option InboundEnd) := []
   responders : List Responder := []
   timers : List (Fut × Nat) := []
@@ -76,9 +96,9 @@ def sortStrings (l : List String) : List String := l.foldr insertSorted []
 
 def joinOrDash (l : List String) : String := if l.isEmpty then "-" else joinWith "," l
 
-def listIndex? (r : Rid) : List Rid → Nat → Option Nat
+def listIndex? (r : Rid) : List (Option Rid) → Nat → Option Nat
   | [], _ => none
-  | x :: xs, i => if x = r then some i else listIndex? r xs i.succ
+  | x :: xs, i => if x = some r then some i else listIndex? r xs i.succ
 
 def inboundIndex? (r : Rid) : List (Option InboundEnd) → Nat → Option Nat
   | [], _ => none
@@ -93,11 +113,13 @@ def nameOf (st : State) (r : Rid) : String :=
     | none => "?" ++ toString r
 
 def dialErrWord : DialErr → String
-  | .noAddress => "no-address" | .alreadyConnected => "already-connected" | .clogged => "clogged" | .other => "other"
+  | .noAddress => "no-address" | .alreadyConnected => "already-connected" | .clogged => "clogged"
+  | .triedToDialSelf => "self" | .taskClosed => "task-closed" | .other => "other"
 
 def subErrWord : SubErr → String
   | .closed => "closed" | .clogged => "clogged" | .noPeer => "no-peer" | .readFailure => "read-failure"
-  | .negotiationTimeout => "negotiation-timeout" | _ => "other"
+  | .negotiationTimeout => "negotiation-timeout" | .negotiation => "negotiation" | .io => "io"
+  | .yamux => "yamux" | .writeFailure => "write-failure" | _ => "other"
 
 def errorWord : RrError → String
   | .rejected .connectionClosed => "conn-closed"
@@ -108,18 +130,44 @@ def errorWord : RrError → String
   | .canceled => "canceled" | .timeout => "timeout" | .notConnected => "not-connected"
   | .tooLargePayload => "too-large" | .unsupportedProtocol => "unsupported"
 
-def showEvent (st : State) : Event → String
-  | .requestReceived p r req => "req:" ++ nameOf st r ++ ":" ++ toString p ++ ":" ++ showPayload req
-  | .responseReceived _ r resp => "resp:" ++ nameOf st r ++ ":" ++ showPayload resp
+def fbWord : Option Nat → String
+  | some n => ":fb" ++ toString n
+  | none => ""
+
+/-- What the user reads from the handle. -/
+def showUserEvent (st : State) : UserEvent → String
+  | .requestReceived p fb r req => "req:" ++ nameOf st r ++ ":" ++ toString p ++ ":" ++ showPayload req ++ fbWord fb
+  | .responseReceived _ r fb resp => "resp:" ++ nameOf st r ++ ":" ++ showPayload resp ++ fbWord fb
   | .requestFailed _ r e => "failed:" ++ nameOf st r ++ ":" ++ errorWord e
 
-def showCall : Call → Option String
-  | .dial p (.ok _) => some ("dial:" ++ toString p)
-  | .openSubstream p (.ok sid) => some ("open:" ++ toString p ++ ":s" ++ toString sid)
-  | _ => none
+/-- The fallback protocol the substream behind a model event was negotiated with. -/
+def eventFallback (st : State) : Event → Option Nat
+  | .requestReceived _ r _ => (st.inbounds.findSome? fun x => x.bind fun e => if e.rid = some r then some e.fb else none).join
+  | .responseReceived _ r _ => (st.negotiated.find? (·.1 == r)).map (·.2)
+  | .requestFailed _ _ _ => none
 
-def dialAnswer (p : Peer) : Except DialErr Unit :=
-  if 1 ≤ p ∧ p ≤ 3 then .ok () else .error .noAddress
+/-- Capacity of the transport manager's command channel in the adapter (as in `TransportManager::new`). -/
+def mgrChannel : Nat := 256
+
+def mgrViews : List String := ["unknown", "noaddr", "disconnected", "redial", "dialing", "opening", "connected"]
+
+/-- The manager's view of `p`: peers 1..3 start with a dialable address, the others are unknown. -/
+def mgrView (st : State) (p : Peer) : String :=
+  match st.mgr.find? (·.1 == p) with
+  | some e => e.2
+  | none => if 1 ≤ p ∧ p ≤ 3 then "disconnected" else "unknown"
+
+/-- `TransportManagerHandle::dial` over the scripted view: the answer, and whether a `DialPeer`
+command went into the manager's channel. Peer 0 is the local node. -/
+def dialAnswer (st : State) (p : Peer) : Except DialErr Unit × Bool :=
+  if p = 0 then (.error .triedToDialSelf, false) else
+  let v := mgrView st p
+  if v = "unknown" || v = "noaddr" then (.error .noAddress, false)
+  else if v = "connected" then (.error .alreadyConnected, false)
+  else if v = "dialing" || v = "opening" || v = "redial" then (.ok (), false)
+  else if st.gone then (.error .taskClosed, false)
+  else if st.clog || st.dialCmds ≥ mgrChannel then (.error .clogged, false)
+  else (.ok (), true)
 
 def connAlive (st : State) (p : Peer) (c : Nat) : Bool :=
   (st.conns.find? (fun e => e.1 == (p, c))).any (·.2)
@@ -131,19 +179,35 @@ def openAnswer (st : State) (p : Peer) (i : Nat) : Except SubErr Sid :=
   | some (primary, _) => if connAlive st p primary then .ok (st.nextSid + i) else .error .closed
 
 /-- Record the calls the protocol made during a step (new substream-open commands). -/
-def absorbCalls (st : State) (old : ReqResp.State) : State :=
-  let new := st.s.calls.drop old.calls.length
+def absorbCalls (st : State) : State :=
+  let new := st.s.calls.drop st.absorbed
   new.foldl (fun st c => match c with
     | .openSubstream p (.ok sid) => { st with nextSid := st.nextSid + 1, opens := st.opens ++ [(sid, p)] }
-    | _ => st) st
+    | _ => st) { st with absorbed := st.s.calls.length }
 
-/-- Run protocol inputs, then print `res;calls;events` for everything since `old`. -/
+/-- The calls of the current operation that show up at the harness: `DialPeer` commands that reached
+the manager's channel (`cmds` of the `Ok` answers, the first ones) and substream-open commands. -/
+def showCalls (cmds : Nat) : List Call → List String
+  | [] => []
+  | .dial p (.ok _) :: rest =>
+    if cmds > 0 then ("dial:" ++ toString p) :: showCalls (cmds - 1) rest else showCalls cmds rest
+  | .openSubstream p (.ok sid) :: rest => ("open:" ++ toString p ++ ":s" ++ toString sid) :: showCalls cmds rest
+  | _ :: rest => showCalls cmds rest
+
+/-- Run protocol inputs, then print `res;calls;events` for everything since `old`: the user drains
+the handle (`Handle.poll` per event; `none` would be the `From` impl's panic). -/
 def finish (st : State) (old : ReqResp.State) (res : String) : State × String :=
-  let st := absorbCalls st old
-  let calls := (st.s.calls.drop old.calls.length).filterMap showCall
-  let events := sortStrings ((st.s.log.drop old.log.length).map (showEvent st))
+  let st := absorbCalls st
+  let calls := showCalls st.dialCmds (st.s.calls.drop old.calls.length)
+  let polled := (st.s.log.drop old.log.length).foldl (fun (acc : Handle × List String × Bool) ev =>
+      let r := acc.1.poll (ev.toInner (eventFallback st ev))
+      match r.2 with
+      | some u => (r.1, acc.2.1 ++ [showUserEvent st u], acc.2.2)
+      | none => (r.1, acc.2.1, true)) (st.h, [], false)
+  let st := { st with h := polled.1.drained, dialCmds := 0 }
+  let events := sortStrings polled.2.1
   let out := res ++ ";" ++ joinOrDash calls ++ ";" ++ joinOrDash events
-  (st, if st.s.panicked then "panic debug-assert" else out)
+  (st, if st.s.panicked then "panic debug-assert" else if polled.2.2 then "panic unhandled event" else out)
 
 def proto (st : State) (i : Input) : State := { st with s := step st.s i }
 
@@ -188,6 +252,16 @@ def progressInbound (st : State) (k : Nat) (e : InboundEnd) (closed : Bool) : St
         if st.s.pendingOutboundResponses.contains f then setInbound st k { e with delivered := true }
         else setInbound st k { e with eof := true }
 
+/-- One request handed to the protocol: the service's answers come from the environment. -/
+def sendOne (st : State) (p : Peer) (req : Request) (opts : DialOptions) : State :=
+  let rid := st.s.nextRid
+  let st := { st with sends := st.sends ++ [some rid] }
+  -- `dial` is only called for a peer the protocol has not registered, with `DialOptions::Dial`
+  let calls := (alFind p st.s.peers).isNone && opts == .dial
+  let d := dialAnswer st p
+  let st := if calls && d.2 then { st with dialCmds := st.dialCmds + 1 } else st
+  absorbCalls { st with s := step st.s (.send p req opts d.1 (openAnswer st p 0)) }
+
 def showIds (st : State) (l : List Rid) : String :=
   joinWith "+" (sortStrings (l.map (nameOf st)))
 
@@ -229,27 +303,39 @@ def stepCfg (st : State) (line : String) : State × String :=
 def stepOp (st : State) (ts : List String) : State × String :=
   let old := st.s
   match ts with
-  | ["send", p, len, fill, mode] =>
+  | "send" :: p :: len :: fill :: mode :: rest =>
+    -- `async`: `send_request` instead of `try_send_request` (the channel has room: same effect)
+    if !(rest.isEmpty || rest = ["async"]) then (st, "bad-op") else
     match p.toNat?, len.toNat?, fill.toNat?, (if mode = "dial" then some DialOptions.dial else if mode = "reject" then some .reject else none) with
     | some p, some len, some fill, some opts =>
       let k := st.sends.length
-      let rid := st.s.nextRid
-      let st := { st with sends := st.sends ++ [rid] }
-      let st := proto st (.send p ⟨⟨len, fill⟩, none⟩ opts (dialAnswer p) (openAnswer st p 0))
-      finish st old ("r" ++ toString k)
+      finish (sendOne st p ⟨⟨len, fill⟩, none⟩ opts) old ("r" ++ toString k)
     | _, _, _, _ => (st, "bad-op")
-  | ["sendfb", p, len, fill, mode, fbn, flen, ffill] =>
+  | "sendfb" :: p :: len :: fill :: mode :: fbn :: flen :: ffill :: rest =>
+    if !(rest.isEmpty || rest = ["async"]) then (st, "bad-op") else
     match p.toNat?, len.toNat?, fill.toNat?, (if mode = "dial" then some DialOptions.dial else if mode = "reject" then some .reject else none),
       fbn.toNat?, flen.toNat?, ffill.toNat? with
     | some p, some len, some fill, some opts, some fbn, some flen, some ffill =>
       let k := st.sends.length
-      let rid := st.s.nextRid
-      let st := { st with sends := st.sends ++ [rid] }
-      let st := proto st (.send p ⟨⟨len, fill⟩, some (fbn, ⟨flen, ffill⟩)⟩ opts (dialAnswer p) (openAnswer st p 0))
-      finish st old ("r" ++ toString k)
+      finish (sendOne st p ⟨⟨len, fill⟩, some (fbn, ⟨flen, ffill⟩)⟩ opts) old ("r" ++ toString k)
     | _, _, _, _, _, _, _ => (st, "bad-op")
+  | "burst" :: p :: count :: mode :: rest =>
+    -- `count` `try_send_request`s back to back: the command channel takes what fits, the rest is
+    -- refused after its id has been allocated; then the protocol handles the accepted ones in order
+    if !(rest.isEmpty || rest = ["fb"]) then (st, "bad-op") else
+    match p.toNat?, count.toNat?, (if mode = "dial" then some DialOptions.dial else if mode = "reject" then some .reject else none) with
+    | some p, some count, some opts =>
+      if count > 10000 then (st, "bad-op") else
+      let r := st.h.trySendMany st.s.nextRid (fun rid => .sendRequest p rid ⟨1, 0⟩ opts) count
+      let accepted := r.2.2
+      let st := (List.range accepted).foldl (fun st j =>
+        sendOne st p ⟨⟨1, j⟩, if rest.isEmpty then none else some (1, ⟨2, j⟩)⟩ opts) st
+      let st := (List.range (count - accepted)).foldl (fun st _ =>
+        { st with sends := st.sends ++ [none], s := step st.s .clogged }) st
+      finish st old ("burst:ok=" ++ toString accepted ++ ":clogged=" ++ toString (count - accepted))
+    | _, _, _ => (st, "bad-op")
   | ["cancel", r] =>
-    match (index? 'r' r).bind (st.sends[·]?) with
+    match ((index? 'r' r).bind (st.sends[·]?)).join with
     | some rid =>
       let st := proto st (.cancel rid)
       -- an effective cancel completes the future at once
@@ -260,6 +346,16 @@ def stepOp (st : State) (ts : List String) : State × String :=
         else st
       finish st old "ok"
     | none => finish st old "none"
+  | ["mgr", "clog"] => finish { st with clog := true } old "ok"
+  | ["mgr", "unclog"] => finish { st with clog := false } old "ok"
+  | ["mgr", "gone"] => finish { st with gone := true } old "ok"
+  | ["mgr", p, view] =>
+    match p.toNat? with
+    | some p =>
+      if mgrViews.contains view then
+        finish { st with mgr := (p, view) :: st.mgr.filter (·.1 != p) } old "ok"
+      else (st, "bad-op")
+    | none => (st, "bad-op")
   | "ev" :: "established" :: p :: c :: rest =>
     match p.toNat?, c.toNat? with
     | some p, some c =>
@@ -305,7 +401,7 @@ def stepOp (st : State) (ts : List String) : State × String :=
     match index? 'r' r with
     | none => (st, "bad-op")
     | some k =>
-      let target := (st.sends[k]?).bind fun rid =>
+      let target := (st.sends[k]?).join.bind fun rid =>
         (st.s.pendingOutbound.find? (fun e => e.2.rid == rid)).bind fun e =>
           (st.opens.find? (fun o => o.1 == e.1)).map fun o => (e.1, o.2, e.2)
       match target with
@@ -318,8 +414,17 @@ def stepOp (st : State) (ts : List String) : State × String :=
           let fb := (arg? "fb" rest).bind (·.toNat?)
           let noread := rest.contains "noread"
           let st := proto st (.outboundSubstream p sid fb)
+          let st := match fb with
+            | some n => { st with negotiated := (ctx.rid, n) :: st.negotiated.filter (·.1 != ctx.rid) }
+            | none => st
           let f : Fut := ⟨p, ctx.rid, sid⟩
           let pl := ctx.request.payloadFor fb
+          if rest.contains "broken" then
+            -- the connection under the substream is gone: the write fails (the size check comes first)
+            let st := { st with responders := st.responders.filter (·.k != k) }
+            let o : FutOutcome := if pl.len ≤ st.max then .sendError .io else .sendTooLarge
+            finish (completeFut st f o.result) old "opened:broken"
+          else
           if pl.len ≤ st.max then
             if noread then
               let st := { st with
@@ -339,6 +444,14 @@ def stepOp (st : State) (ts : List String) : State × String :=
           let err : SubErr := match rest.head? with
             | some "unsupported" => .unsupported
             | some "notconn" => .notConnected
+            | some "notconn-yamux" => .yamuxNotConnected
+            | some "notconn-neg" => .negotiationNotConnected
+            | some "notconn-ms" => .msNotConnected
+            | some "reset" => .io
+            | some "reset-yamux" => .yamux
+            | some "reset-neg" => .negotiation
+            | some "reset-ms" => .negotiation
+            | some "clogged" => .clogged
             | some "timeout" => .negotiationTimeout
             | _ => .closed
           finish (proto st (.substreamOpenFailure sid err)) old "ok"
@@ -382,14 +495,15 @@ def stepOp (st : State) (ts : List String) : State × String :=
           if !st.conns.any (fun e => e.1.1 == p) then
             finish { st with inbounds := st.inbounds ++ [none] } old ("i" ++ toString k ++ ":no-connection")
           else
-            let hold := more.head? == some "hold"
+            let hold := more.contains "hold"
+            let fbIn := (arg? "fb" more).bind (·.toNat?)
             let payload : Payload := ⟨len, fill⟩
             let written := if hold then 1 else varintLen len + len
             let before := st.s
             let st := proto st (.inboundSubstream p)
             let accepted := st.s.pendingInboundRequests.length > before.pendingInboundRequests.length
             let rid := if st.s.nextRid > before.nextRid then some before.nextRid else none
-            let e : InboundEnd := ⟨p, rid, payload, written, none, !accepted, false, false, false⟩
+            let e : InboundEnd := ⟨p, rid, payload, written, none, !accepted, false, false, false, fbIn⟩
             let st := { st with inbounds := st.inbounds ++ [some e] }
             let st := if accepted then progressInbound st k e false else st
             let (st, o) := finish st old ("i" ++ toString k)
@@ -399,7 +513,7 @@ def stepOp (st : State) (ts : List String) : State × String :=
               | [] => o)
         | _, _ => (st, "bad-op")
       | _, _ => (st, "bad-op")
-    else if op = "answer" && rest.length = 2 || op = "refuse" && rest.isEmpty then
+    else if op = "answer" && (rest.length = 2 || rest.length = 3 && rest[2]? = some "feedback") || op = "refuse" && rest.isEmpty then
       match index? 'i' r with
       | none => (st, "bad-op")
       | some k =>
@@ -410,17 +524,23 @@ def stepOp (st : State) (ts : List String) : State × String :=
           | some rid =>
             let f : InFut := ⟨e.peer, rid⟩
             let payload? : Option Payload := match rest with
-              | [len, fill] => match len.toNat?, fill.toNat? with
+              | len :: fill :: _ => match len.toNat?, fill.toNat? with
                 | some len, some fill => some ⟨len, fill⟩
                 | _, _ => none
               | _ => none
             if op = "answer" && payload?.isNone then (st, "bad-op") else
+            -- `send_response{,_with_feedback}` / `reject_request` use up the pending response, if any
+            let hr := if op = "answer" then st.h.sendResponse rid else st.h.rejectRequest rid
+            let st := { st with h := hr.1 }
+            let effective := hr.2 && st.s.pendingOutboundResponses.contains f
+            let got := if op = "answer" && effective then payload?.filter (·.len ≤ st.max) else none
             let st :=
-              if e.delivered && !e.answered && st.s.pendingOutboundResponses.contains f then
-                let got := if op = "answer" then payload?.filter (·.len ≤ st.max) else none
+              if effective then
                 setInbound (proto st (.responseDone f)) k { e with answered := true, got := got, eof := true }
               else st
-            let (st, o) := finish st old "ok"
+            -- the feedback channel fires once the response has been written, and is dropped otherwise
+            let word := if rest.length = 3 then (if got.isSome then "ok:feedback=sent" else "ok:feedback=dropped") else "ok"
+            let (st, o) := finish st old word
             (st, match o.splitOn ";" with
               | res :: tail => joinWith ";" (withRemote st k res :: tail)
               | [] => o)
